@@ -110,4 +110,210 @@ theorem C03_delta_filtered (ok : List Row → Bool) (old new : List (List Row)) 
 
 example : deltaMatches [[1], [10]] [[2], [20]] = [[2, 10], [2, 20], [1, 20]] := by decide
 
+/-! ### whole iterations: the semi-naive sequence of databases equals the naive one -/
+
+/-- a rule: the table each body atom reads, the join condition, and the facts its head writes for a match -/
+structure SRule (Row : Type) where
+  atoms : List Nat
+  ok : List Row → Bool
+  head : List Row → List (Nat × Row)
+
+/-- a database: the rows of each table (lists read as sets) -/
+abbrev SDB (Row : Type) := Nat → List Row
+
+def SDB.has (D : SDB Row) (f : Nat × Row) : Prop := f.2 ∈ D f.1
+
+/-- facts written by one naive iteration of the rules over `D` -/
+def naiveOut (rules : List (SRule Row)) (D : SDB Row) : List (Nat × Row) :=
+  rules.flatMap fun r => ((product (r.atoms.map D)).filter r.ok).flatMap r.head
+
+/-- facts written by one semi-naive iteration: only the delta variants -/
+def semiOut (rules : List (SRule Row)) (old new : SDB Row) : List (Nat × Row) :=
+  rules.flatMap fun r => ((deltaMatches (r.atoms.map old) (r.atoms.map new)).filter r.ok).flatMap r.head
+
+theorem zip_map_append (atoms : List Nat) (old new : SDB Row) :
+    ((atoms.map old).zip (atoms.map new)).map (fun p => p.1 ++ p.2) = atoms.map (fun a => old a ++ new a) := by
+  induction atoms with
+  | nil => rfl
+  | cons a as ih => simp [ih]
+
+/-- the tuple lies within the OLD rows of every atom -/
+theorem product_old_or_new (atoms : List Nat) (old new : SDB Row) (t : List Row)
+    (ht : t ∈ product (atoms.map (fun a => old a ++ new a))) :
+    t ∈ product (atoms.map old) ∨ ∃ i, At (atoms.map new) t i := by
+  induction atoms generalizing t with
+  | nil => left; simpa [product] using ht
+  | cons a as ih =>
+    simp only [List.map_cons, product, List.mem_flatMap, List.mem_map] at ht
+    obtain ⟨x, hx, t', ht', rfl⟩ := ht
+    rcases List.mem_append.mp hx with hxo | hxn
+    · rcases ih t' ht' with h | ⟨i, r, l, h1, h2, h3⟩
+      · left
+        simp only [List.map_cons, product, List.mem_flatMap, List.mem_map]
+        exact ⟨x, hxo, t', h, rfl⟩
+      · right; exact ⟨i + 1, r, l, by simpa using h1, by simpa using h2, h3⟩
+    · right; exact ⟨0, x, new a, by simp, by simp, hxn⟩
+
+theorem product_mono (atoms : List Nat) (A B : SDB Row) (h : ∀ a r, r ∈ A a → r ∈ B a) (t : List Row)
+    (ht : t ∈ product (atoms.map A)) : t ∈ product (atoms.map B) := by
+  induction atoms generalizing t with
+  | nil => simpa [product] using ht
+  | cons a as ih =>
+    simp only [List.map_cons, product, List.mem_flatMap, List.mem_map] at ht ⊢
+    obtain ⟨x, hx, t', ht', rfl⟩ := ht
+    exact ⟨x, h a x hx, t', ih t' ht', rfl⟩
+
+/-- everything the rules derive from the OLD rows alone is already in the database -/
+def Applied (rules : List (SRule Row)) (old new : SDB Row) : Prop :=
+  ∀ f, f ∈ naiveOut rules old → f.2 ∈ old f.1 ++ new f.1
+
+/-- **One iteration**: provided the matches over the old rows were applied before, the semi-naive
+iteration writes — up to facts that are already present — exactly what the naive iteration over
+the whole database writes: no match is lost, none is invented. -/
+theorem C03_iteration (rules : List (SRule Row)) (old new : SDB Row) (hap : Applied rules old new) (f : Nat × Row) :
+    (f ∈ semiOut rules old new ∨ f.2 ∈ old f.1 ++ new f.1) ↔
+    (f ∈ naiveOut rules (fun a => old a ++ new a) ∨ f.2 ∈ old f.1 ++ new f.1) := by
+  constructor
+  · rintro (h | h)
+    · left
+      simp only [semiOut, naiveOut, List.mem_flatMap, List.mem_filter] at h ⊢
+      obtain ⟨r, hr, t, ⟨ht, hok⟩, hf⟩ := h
+      have := (C03_delta (r.atoms.map old) (r.atoms.map new) t (by simp)).mp ht
+      rw [zip_map_append] at this
+      exact ⟨r, hr, t, ⟨this.1, hok⟩, hf⟩
+    · exact Or.inr h
+  · rintro (h | h)
+    · simp only [naiveOut, List.mem_flatMap, List.mem_filter] at h
+      obtain ⟨r, hr, t, ⟨ht, hok⟩, hf⟩ := h
+      rcases product_old_or_new r.atoms old new t ht with hold | hnew
+      · right
+        apply hap
+        simp only [naiveOut, List.mem_flatMap, List.mem_filter]
+        exact ⟨r, hr, t, ⟨hold, hok⟩, hf⟩
+      · left
+        simp only [semiOut, List.mem_flatMap, List.mem_filter]
+        refine ⟨r, hr, t, ⟨?_, hok⟩, hf⟩
+        apply (C03_delta (r.atoms.map old) (r.atoms.map new) t (by simp)).mpr
+        rw [zip_map_append]
+        exact ⟨ht, hnew⟩
+    · exact Or.inr h
+
+/-- add facts to a database -/
+def addFacts (D : SDB Row) (fs : List (Nat × Row)) : SDB Row :=
+  fun a => D a ++ (fs.filter (fun f => f.1 = a)).map (·.2)
+
+theorem mem_addFacts (D : SDB Row) (fs : List (Nat × Row)) (a : Nat) (r : Row) :
+    r ∈ addFacts D fs a ↔ r ∈ D a ∨ (a, r) ∈ fs := by
+  unfold addFacts
+  simp only [List.mem_append, List.mem_map, List.mem_filter, decide_eq_true_eq]
+  constructor
+  · rintro (h | ⟨f, ⟨hf, rfl⟩, rfl⟩)
+    · exact Or.inl h
+    · exact Or.inr hf
+  · rintro (h | h)
+    · exact Or.inl h
+    · exact Or.inr ⟨(a, r), ⟨h, rfl⟩, rfl⟩
+
+/-- `k` naive iterations -/
+def naiveRun (rules : List (SRule Row)) : Nat → SDB Row → SDB Row
+  | 0, D => D
+  | k + 1, D => naiveRun rules k (addFacts D (naiveOut rules D))
+
+/-- `k` semi-naive iterations on (old, new): the new rows become old, the facts just written new -/
+def semiRun (rules : List (SRule Row)) : Nat → SDB Row × SDB Row → SDB Row × SDB Row
+  | 0, s => s
+  | k + 1, (old, new) =>
+    semiRun rules k (fun a => old a ++ new a, fun a => ((semiOut rules old new).filter (fun f => f.1 = a)).map (·.2))
+
+/-- two databases with the same facts -/
+def SameFacts (A B : SDB Row) : Prop := ∀ a r, r ∈ A a ↔ r ∈ B a
+
+theorem naiveOut_congr (rules : List (SRule Row)) {A B : SDB Row} (h : SameFacts A B) (f : Nat × Row) :
+    f ∈ naiveOut rules A ↔ f ∈ naiveOut rules B := by
+  simp only [naiveOut, List.mem_flatMap, List.mem_filter]
+  constructor
+  · rintro ⟨r, hr, t, ⟨ht, hok⟩, hf⟩
+    exact ⟨r, hr, t, ⟨product_mono r.atoms A B (fun a x hx => (h a x).mp hx) t ht, hok⟩, hf⟩
+  · rintro ⟨r, hr, t, ⟨ht, hok⟩, hf⟩
+    exact ⟨r, hr, t, ⟨product_mono r.atoms B A (fun a x hx => (h a x).mpr hx) t ht, hok⟩, hf⟩
+
+theorem naiveRun_congr (rules : List (SRule Row)) : ∀ (k : Nat) {A B : SDB Row}, SameFacts A B →
+    SameFacts (naiveRun rules k A) (naiveRun rules k B) := by
+  intro k
+  induction k with
+  | zero => intro A B h; exact h
+  | succ k ih =>
+    intro A B h
+    apply ih
+    intro a r
+    rw [mem_addFacts, mem_addFacts, h a r, naiveOut_congr rules h]
+
+/-- **Every iteration of every schedule of single-ruleset runs**: starting from a database all of
+whose rows are new (nothing applied yet), after any number `k` of iterations the semi-naive engine
+and the naive engine hold exactly the same facts. -/
+theorem C03_run (rules : List (SRule Row)) : ∀ (k : Nat) (old new : SDB Row), Applied rules old new →
+    SameFacts (fun a => (semiRun rules k (old, new)).1 a ++ (semiRun rules k (old, new)).2 a)
+      (naiveRun rules k (fun a => old a ++ new a)) := by
+  intro k
+  induction k with
+  | zero => intro old new _ a r; exact Iff.rfl
+  | succ k ih =>
+    intro old new hap
+    simp only [semiRun, naiveRun]
+    -- the next semi-naive state has applied everything derivable from its old rows
+    have hap' : Applied rules (fun a => old a ++ new a)
+        (fun a => ((semiOut rules old new).filter (fun f => f.1 = a)).map (·.2)) := by
+      intro f hf
+      have := (C03_iteration rules old new hap f).mpr (Or.inl hf)
+      rcases this with h | h
+      · apply List.mem_append_right
+        simp only [List.mem_map, List.mem_filter, decide_eq_true_eq]
+        exact ⟨f, ⟨h, rfl⟩, rfl⟩
+      · exact List.mem_append_left _ h
+    have step := ih (fun a => old a ++ new a)
+      (fun a => ((semiOut rules old new).filter (fun f => f.1 = a)).map (·.2)) hap'
+    intro a r
+    rw [step a r]
+    apply naiveRun_congr rules k
+    intro a r
+    rw [mem_addFacts]
+    have key := C03_iteration rules old new hap (a, r)
+    simp only at key
+    constructor
+    · intro h
+      rcases List.mem_append.mp h with h | h
+      · exact Or.inl h
+      · simp only [List.mem_map, List.mem_filter, decide_eq_true_eq] at h
+        obtain ⟨f, ⟨hf, rfl⟩, rfl⟩ := h
+        rcases key.mp (Or.inl hf) with h' | h'
+        · exact Or.inr h'
+        · exact Or.inl h'
+    · rintro (h | h)
+      · exact List.mem_append_left _ h
+      · rcases key.mpr (Or.inl h) with h' | h'
+        · apply List.mem_append_right
+          simp only [List.mem_map, List.mem_filter, decide_eq_true_eq]
+          exact ⟨(a, r), ⟨h', rfl⟩, rfl⟩
+        · exact List.mem_append_left _ h'
+
+/-- from a fresh database (everything new, nothing old) the hypothesis holds trivially whenever no
+rule has an empty body (a rule without atoms would fire on the empty old database) -/
+theorem C03_run_fresh (rules : List (SRule Row)) (hne : ∀ r ∈ rules, r.atoms ≠ []) (k : Nat) (D : SDB Row) :
+    SameFacts (fun a => (semiRun rules k (fun _ => [], D)).1 a ++ (semiRun rules k (fun _ => [], D)).2 a)
+      (naiveRun rules k D) := by
+  have hap : Applied rules (fun _ => []) D := by
+    intro f hf
+    simp only [naiveOut, List.mem_flatMap, List.mem_filter] at hf
+    obtain ⟨r, hr, t, ⟨ht, _⟩, _⟩ := hf
+    exfalso
+    have hne' := hne r hr
+    cases hra : r.atoms with
+    | nil => exact hne' hra
+    | cons a as => rw [hra] at ht; simp [product] at ht
+  have := C03_run rules k (fun _ => []) D hap
+  intro a r
+  rw [this a r]
+  apply naiveRun_congr rules k
+  intro a r; simp
+
 end EgglogVerif.Seminaive
